@@ -93,7 +93,7 @@ def main():
         "hooks": {"guard": "corgi_verif",
                   "enable": "RUSTFLAGS=\"--cfg corgi_verif\" (set by check.py when it builds harness/ against /repo)",
                   "baseline_off_cmd": "cd /repo && cargo test --workspace --no-fail-fast --offline",
-                  "source_commits": ["eebc154"], "add_only": True},
+                  "source_commits": ["eebc154", "11c42bf"], "add_only": True},
         "engines": [{"name": "coq-model+correspondence", "path": "/verif/check.py",
                      "serves_properties": [c["property_id"] for c in checks],
                      "kind_free_text": "Coq theorems (coq/Props, proofs in coq/Proofs) about a hand-written Gallina model "
